@@ -242,6 +242,18 @@ def validate_trace(cwd, module, cfg, trace_path, env=None, chunks=None, max_reje
         rej, acc, states, gen, reports, runs = [], 0, 0, 0, [], 0
         sub = os.path.join(cwd, "chunk%d" % gi)
         stage_dir(cwd, sub)
+        def globalise(reps, grp):
+            gidx = [h[0] + k for h in grp for k in range(len(h[1]))]
+            out = []
+            for rp in reps:
+                parts = rp.split(" ", 3)
+                try:
+                    li = int(parts[2]) - 1
+                    out.append((parts[1], gidx[li], parts[3] if len(parts) > 3 else ""))
+                except (ValueError, IndexError):
+                    out.append((parts[1] if len(parts) > 1 else "?", -1, rp))
+            return out
+
         while group:
             flat = [ln for h in group for ln in h[1]]
             r, n, consumed = _validate_one(sub, module, cfg, flat, env, gi, timeout)
@@ -252,7 +264,7 @@ def validate_trace(cwd, module, cfg, trace_path, env=None, chunks=None, max_reje
                 raise Inconclusive("trace validation produced no CONSUMED line (module %s):\n%s" % (module, r.out[-3000:]))
             if consumed >= n and r.ok:
                 acc += n
-                reports += r.printed("REPORT")
+                reports += globalise(r.printed("REPORT"), group)
                 break
             if consumed >= n and not r.ok:
                 raise Inconclusive("trace consumed but TLC reported an error (module %s):\n%s" % (module, r.out[-3000:]))
@@ -275,7 +287,7 @@ def validate_trace(cwd, module, cfg, trace_path, env=None, chunks=None, max_reje
                 flatp = [ln for hh in prefix for ln in hh[1]]
                 rp, np_, cp = _validate_one(sub, module, cfg, flatp, env, gi, timeout)
                 runs += 1
-                reports += rp.printed("REPORT")
+                reports += globalise(rp.printed("REPORT"), prefix)
             group = group[k + 1:]
         return rej, acc, states, gen, reports, runs
 
